@@ -1,7 +1,7 @@
 (* C01 - Label indexing returns exactly the data stored at those labels. *)
 From DA Require Import Prelude NDArray Array PyRT.
 From DA.Model Require Import Value Reshape SliceSpec Indexing.
-From DA.Proofs Require Import C10_proofs C01_proofs.
+From DA.Proofs Require Import C10_proofs C01_proofs C17_proofs C01_complete.
 Open Scope nat_scope.
 
 (* a scalar label resolves to the first position carrying that label ... *)
@@ -96,6 +96,13 @@ Proof. exact getaxes_cons_full. Qed.
 Print Assumptions C01_axes_pos.
 
 (* non-vacuity *)
+(* completeness: argsort + searchsorted + clip + guard finds EVERY label that is on the axis (duplicates and any
+   stored order included), so the list lookup fails exactly when some requested label is absent *)
+Theorem C01_locate_many_complete : forall ls vs,
+  (forall v, In v vs -> exists i, i < List.length ls /\ label_eqb (nth i ls LNone) v = true) ->
+  exists ms, locate_many ls vs = Ok ms.
+Proof. exact locate_many_complete. Qed.
+Print Assumptions C01_locate_many_complete.
 Definition ex_a : darr :=
   Arr [Ax "x" KI [L_ 3; L_ 1; L_ 2] [] []; Ax "y" KO [LStr "a"; LStr "b"] [] []]
       [3; 2] KF [N_ 1; N_ 2; N_ 3; N_ 4; N_ 5; N_ 6] [("units", MStr "K")].
